@@ -972,6 +972,9 @@ func fixed() []Script {
 			{AtMs: 400, Kind: "slow", SlowMs: 500}, {AtMs: 1250, Kind: "del", Sess: 0}, {AtMs: 1900, Kind: "slow", SlowMs: 0}}},
 		{Name: "real-tick-queued-behind-last-removal", Real: []RealEv{{AtMs: 0, Kind: "est", Period: 1}, {AtMs: 200, Kind: "est", Period: 2}, {AtMs: 900, Kind: "slow", SlowMs: 500},
 			{AtMs: 2100, Kind: "del", Sess: 1}, {AtMs: 2800, Kind: "del", Sess: 0}, {AtMs: 3000, Kind: "slow", SlowMs: 0}}},
+		// the same, and the period whose stale tick was served after its group had gone is used again: the new session must report
+		{Name: "real-period-used-again-after-a-stale-tick", Watch: true, Real: []RealEv{{AtMs: 0, Kind: "est", Period: 1}, {AtMs: 200, Kind: "est", Period: 2}, {AtMs: 900, Kind: "slow", SlowMs: 500},
+			{AtMs: 2100, Kind: "del", Sess: 1}, {AtMs: 3000, Kind: "slow", SlowMs: 0}, {AtMs: 3300, Kind: "est", Period: 2}}},
 	}
 }
 
